@@ -120,14 +120,19 @@ def check(case):
             if k >= len(vec) or k < 0:
                 continue
             v2 = vec.copy()
-            v2[k] = v2[k] * 1.01 + 0.003
+            # tiny perturbation: stays inside the support (a scale pushed below zero makes chi return
+            # NaN for every dimension, which says nothing about naming)
+            v2[k] = v2[k] * (1 + 1e-3) + 1e-6
 
             def psi_of(v):
                 top = v[nb:]
                 eta = pm.compute_individual_parameters(
                     parameters=top, eta=v[:nb], covariates=cov, return_eta=True)
                 return np.asarray(pm.compute_individual_parameters(top, eta, cov), dtype=float)
-            d_psi = psi_of(v2) != psi_of(vec)
+            pa, pb = psi_of(v2), psi_of(vec)
+            if not (np.all(np.isfinite(pa)) and np.all(np.isfinite(pb))):
+                continue
+            d_psi = pa != pb
             rows = set(np.nonzero(d_psi.any(axis=1))[0].tolist())
             cols = set(np.nonzero(d_psi.any(axis=0))[0].tolist())
             if pub_ids[k] is not None:
